@@ -26,10 +26,11 @@ Proof.
 Qed.
 
 (* ---------------------------------------------------------------- the regular expression  cp, digits, then a group "any text to the end of the line"; the flag is: "t" in that group *)
-(* a = "cp" ++ ds ++ fl ++ tl : ds = the (maximal, non-empty) digit run, fl = the rest of the first line (the regex group:
+(* a = "cp" ++ ds ++ fl ++ tl : ds = the (maximal, non-empty) run of decimal digits (is_ud: the Unicode class backslash-d, so
+   "cp" + ARABIC-INDIC DIGIT THREE + "t" is threaded too: arabic_digit_threaded), fl = the rest of the first line (the regex group:
    `.` matches anything but "\n"), tl = nothing or what follows from the first "\n" on; threaded iff "t" occurs in fl *)
 Definition threaded_shape (a : str) : Prop :=
-  exists ds fl tl, a = s_cp ++ ds ++ fl ++ tl /\ ds <> [] /\ forallb is_digit ds = true /\ head_not is_digit fl = true /\
+  exists ds fl tl, a = s_cp ++ ds ++ fl ++ tl /\ ds <> [] /\ forallb is_ud ds = true /\ head_not is_ud fl = true /\
                    forallb not_nl fl = true /\ (tl = [] \/ exists t, tl = 10 :: t) /\ In 116 fl.
 Lemma existsb_eqb_In c l : existsb (N.eqb c) l = true <-> In c l.
 Proof.
@@ -42,7 +43,7 @@ Proof.
   unfold threaded_shape. split.
   - unfold threaded_abi. destruct a as [|c1 [|c2 r]]; try discriminate.
     destruct (N.eqb_spec c1 99) as [->|]; [|discriminate]. destruct (N.eqb_spec c2 112) as [->|]; [|discriminate]. cbn [andb].
-    destruct (span is_digit r) as [ds rest] eqn:S1. apply span_complete in S1 as (-> & D1 & D2).
+    destruct (span is_ud r) as [ds rest] eqn:S1. apply span_complete in S1 as (-> & D1 & D2).
     destruct ds as [|d ds]; [discriminate|]. destruct (span not_nl rest) as [fl tl] eqn:S2. cbn [fst].
     apply span_complete in S2 as (-> & F1 & F2). intros T. apply existsb_eqb_In in T.
     exists (d :: ds), fl, tl. repeat split; auto; try discriminate.
@@ -50,15 +51,17 @@ Proof.
     + destruct tl as [|c tl]; [now left | right]. cbn [head_not] in F2. apply not_nl_false in F2. subst. now exists tl.
   - intros (ds & fl & tl & -> & NE & D & HD & F & TL & T). unfold threaded_abi, s_cp. cbn [app].
     rewrite !N.eqb_refl. cbn [andb].
-    assert (HD' : head_not is_digit (fl ++ tl) = true).
+    assert (HD' : head_not is_ud (fl ++ tl) = true).
     { destruct fl as [|c fl]; [contradiction | exact HD]. }
-    rewrite (span_app is_digit ds (fl ++ tl) D HD'). destruct ds as [|d ds]; [congruence|].
+    rewrite (span_app is_ud ds (fl ++ tl) D HD'). destruct ds as [|d ds]; [congruence|].
     assert (TL' : head_not not_nl tl = true).
     { destruct TL as [->|[t ->]]; reflexivity. }
     rewrite (span_app not_nl fl tl F TL'). cbn [fst]. now apply existsb_eqb_In.
 Qed.
+Theorem arabic_digit_threaded : threaded_abi (s_cp ++ [1635; 116]) = true /\ is_digit 1635 = false.
+Proof. split; vm_compute; reflexivity. Qed.
 (* never threaded: text that does not begin with "cp" and a digit; e.g. the names abi3 / none and any pypy/graalpy ABI *)
-Lemma threaded_needs_cp_digit a : threaded_abi a = true -> exists d r, a = s_cp ++ d :: r /\ is_digit d = true.
+Lemma threaded_needs_cp_digit a : threaded_abi a = true -> exists d r, a = s_cp ++ d :: r /\ is_ud d = true.
 Proof.
   intros H. apply threaded_spec in H as (ds & fl & tl & -> & NE & D & _). destruct ds as [|d ds]; [congruence|].
   cbn [forallb] in D. apply andb_prop in D as [D _]. exists d, (ds ++ fl ++ tl). split; [reflexivity | exact D].
